@@ -72,7 +72,8 @@ def make_spec():
     # (the Mailbox forwards each phase once), and which mood the Mailbox has recorded
     s.extra_components = [("M.pake_processed", "member", "M", "_processed", "pake"),
                           ("M.version_processed", "member", "M", "_processed", "version"),
-                          ("M.mood", "mapped", "M", "_mood", list(MOODS))]
+                          ("M.mood", "mapped", "M", "_mood", list(MOODS)),
+                          ("ghost.version_from_queue", "member", "ghost", "queued_delivered", "version")]
     s.const_fields = {
         "Boss": {"_side": "str", "_appid": "str", "_versions": "json", "_W": "obj[WormholeApp]",
                  "_url": "str"},
@@ -95,6 +96,7 @@ def make_spec():
         g[f] = ("bool", "False")
     g["result_kind"] = ("enum:" + ",".join(RESULT_KINDS), "0")
     g["queued_delivered"] = ("set[str]", "set()")   # phases already handed over from Order's queue
+    g["versions_via"] = ("enum:none,queue,direct", "0")   # how the peer's versions reached the application
     g["order_drain_pending"] = ("bool", "False")    # Order.drain has queued messages still to hand to Receive (see order_drain)
     g["close_mood"] = ("enum:none,happy,lonely,scary,errory,unwelcome", "0")
     g["tx_close_mood"] = ("enum:none,happy,lonely,scary,errory,unwelcome", "0")
@@ -377,6 +379,7 @@ def make_reg():
                          {"kind": "post", "src": "got_versions after got_verifier, at most once"})
             it.ctx.prove(t("good_decrypt"), "post:C01:versions-only-after-good-decrypt", {"kind": "post"})
             g.fields["w_versions"] = VBool(True)
+            g.fields["versions_via"] = VInt(1 if getattr(it.reg, "_in_queue_delivery", False) else 2)
         elif meth == "received":
             it.ctx.prove(t("w_verifier"), "post:C18:message-after-verifier",
                          {"kind": "post", "src": "received only after got_verifier"})
@@ -765,11 +768,14 @@ def e_order_deliver_queued(eng, it, objs):
     it.ctx.assume(z3.And(mproc.z[phase.z], z3.Not(qd.z[phase.z])))
     qd.z = z3.Store(qd.z, phase.z, True)
     setg(objs, "order_drain_pending", VBool(z3.Bool(it.ctx.namer("more_queued"))))
+    it.reg._in_queue_delivery = True
     try:
         call(it, objs["O"], "_deliver", side, phase, body)
     except PyRaise as e:
         call(it, objs["B"], "error", e.exc)
         raise
+    finally:
+        it.reg._in_queue_delivery = False
 
 
 def e_msg_error(eng, it, objs):
@@ -879,7 +885,7 @@ def engine():
     # its body may change is havocked); an undeclared boundary call counts as touching all ghost state
     e.ghost_effects = {
         "WS.sendMessage": TX_GHOST,
-        "WormholeApp.*": ["w_code", "w_key", "w_verifier", "w_versions", "w_closed"],
+        "WormholeApp.*": ["w_code", "w_key", "w_verifier", "w_versions", "w_closed", "versions_via"],
         "DilatorB.*": ["d_stop_called", "d_stopped_done"],
         "SecretBox.decrypt": ["good_decrypt"], "SecretBox.encrypt": [], "SPAKE2.start": [], "SPAKE2.finish": [],
         "sha256.digest": [], "ClientService.*": [],
